@@ -7,7 +7,6 @@ package runtime
 import (
 	"bytes"
 	"context"
-	"errors"
 	"io"
 	"reflect"
 	"strconv"
@@ -757,7 +756,7 @@ func (vm *VM) startGoroutine() bool {
 		f := vm.general(call.A).Interface().(*callable)
 		if f.fn == nil {
 			if f.isNil() {
-				panic(errors.New("fatal error: go of nil func value"))
+				panic(runtimeError("go of nil func value"))
 			}
 			return true
 		}
